@@ -480,6 +480,23 @@ func compare(want, got arrow.RecordBatch) (se, ve bool, why string) {
 	return se, ve, strings.TrimSpace(w1 + " " + w2)
 }
 
+// readBack reads the region of w through the peer attachment with the (offset,
+// length) the writer reported and compares the batch with the one written.
+func (s *stepper) readBack(w *wrec, obs replay.Obs, note func(string, ...any)) {
+	obs["ok"], obs["schema_eq"], obs["values_eq"] = false, false, false
+	got, err := s.peer.ReadBatch(w.off, w.length, w.batch.Schema())
+	if err != nil || got == nil {
+		note("ReadBatch: %v", err)
+		return
+	}
+	defer got.Release()
+	se, ve, why := compare(w.batch, got)
+	obs["ok"], obs["schema_eq"], obs["values_eq"] = true, se, ve
+	if why != "" {
+		note("%s", why)
+	}
+}
+
 // ---------------------------------------------------------------- steps
 
 func (s *stepper) Step(i int, st replay.Step) (replay.Obs, error) {
@@ -510,10 +527,12 @@ func (s *stepper) Step(i int, st replay.Step) (replay.Obs, error) {
 			s.writes = append(s.writes, w)
 			obs["woff"], obs["wlen"], obs["w"] = s.unitOff(off), s.unitLen(uint64(ln)), len(s.writes)
 			obs["layout"] = s.layout(w)
+			s.readBack(w, obs, note)
 		} else {
 			b.Release()
 			g.release()
 			obs["woff"], obs["wlen"], obs["w"], obs["layout"] = 0, 0, 0, "none"
+			obs["nothing_written"] = true
 		}
 		obs["table"] = s.table()
 
@@ -563,12 +582,15 @@ func (s *stepper) Step(i int, st replay.Step) (replay.Obs, error) {
 			obs["w"] = len(s.writes)
 			if e1 == nil && e2 == nil {
 				obs["layout"] = s.layout(w)
+				s.readBack(w, obs, note)
 			} else {
 				obs["layout"] = "unknown"
+				obs["ok"], obs["schema_eq"], obs["values_eq"] = false, false, false
 			}
 		} else {
 			obs["pointer"] = map[string]any{"same_batch": out == b}
 			obs["w"], obs["layout"] = 0, "none"
+			obs["nothing_written"] = true
 			b.Release()
 			g.release()
 		}
@@ -576,19 +598,7 @@ func (s *stepper) Step(i int, st replay.Step) (replay.Obs, error) {
 
 	case "ReadBack":
 		w := s.writes[replay.Int(st.Args, "w")-1]
-		got, err := s.peer.ReadBatch(w.off, w.length, w.batch.Schema())
-		obs["ok"] = err == nil && got != nil
-		obs["schema_eq"], obs["values_eq"] = false, false
-		if err != nil {
-			note("ReadBatch: %v", err)
-		} else {
-			se, ve, why := compare(w.batch, got)
-			obs["schema_eq"], obs["values_eq"] = se, ve
-			if why != "" {
-				note("%s", why)
-			}
-			got.Release()
-		}
+		s.readBack(w, obs, note)
 		obs["layout"] = s.layout(w)
 
 	case "Resolve":
